@@ -2,6 +2,7 @@
   C07 — Output header always matches output records and follows the naming rules.
 -/
 import Rbql.Model.Header
+import Rbql.Theorems.C04
 namespace Rbql
 
 theorem headerLoop_length (ih jh : List Str) (infos : List ColInfo) (acc : List Str) :
@@ -240,5 +241,16 @@ example : (selectOutputHeader (some ["n1".toList, "n2".toList]) (some ["m1".toLi
     [.field false 1, .other, .star none, .alias "z".toList, .named "NR".toList, .field true 5]).toOption =
     some (some ["n2".toList, "col2".toList, "n1".toList, "n2".toList, "m1".toList, "z".toList, "NR".toList, "col8".toList]) := by
   decide
+
+/-- the hypothesis `hnb` of `C07_header_matches_records` holds for the LEFT JOIN null record: with a
+rectangular join table (possibly EMPTY) whose records are as wide as its header, a partner-less record
+is expanded with exactly one None per header name (this was false before the repair d04064f: the null
+record of an empty join table had no field at all) -/
+theorem C07_left_null_record_matches_join_header (q : SemQuery) (B : Table) (js : JoinSpec) (hj : q.join = some js)
+    (hk : js.kind = .left) (nr : Nat) (recA : Row) (key : List Val) (hkey : lhsKey js.lhs nr recA = .ok key)
+    (hnone : partnersSpec js.rhs B key = []) (hrect : ∀ r ∈ B, r.length = js.nullWidth) :
+    ∃ e, expandRecord q B nr recA = .ok [e] ∧ (e.b.getD []).length = js.nullWidth := by
+  refine ⟨_, C04_expand_left_unmatched q B js hj hk nr recA key hkey hnone, ?_⟩
+  simp [(C04_null_width js B).2.2 hrect]
 
 end Rbql
